@@ -184,6 +184,64 @@ theorem c17_replayed_once (dec : SV.WPath.Bytes → List Meta) (h1 h2 : List SV.
   obtain ⟨i1, i2, -⟩ := c17_idempotent _ hg
   exact ⟨rfl, i1, i2⟩
 
+/-- **c17_concurrent_writers_replayed.**  Composition with C01's `c01_mutex_serialises` (`SV.WPath.serial_run`): two
+deliveries running concurrently through `ActiveWriter.Write` *with its mutex* - e.g. a bulk and a partially
+overlapping repeat of it - under every interleaving of their steps leave the store of a history that ends with the
+two bulks in one of the two orders; restarting the still-active fraction hands the index worker the same blocks with
+the same docs offsets, so the replayed fraction is the fraction before the restart, and (decoded bulks well formed)
+it is in the single-LID state of that history without repeats. -/
+theorem c17_concurrent_writers_replayed (dec : SV.WPath.Bytes → List Meta) (h : List SV.WPath.Ev) (hwf : ∀ e ∈ h, e.WF)
+    (a b : SV.WPath.Blk × SV.WPath.Blk) (ha : a.1.WF ∧ a.2.WF) (hb : b.1.WF ∧ b.2.WF) (sched : List Bool)
+    (hfin : (SV.WPath.crun true (SV.WPath.enc a.1) (SV.WPath.enc a.2) (SV.WPath.enc b.1) (SV.WPath.enc b.2)
+      (SV.WPath.cinit (SV.WPath.run true SV.WPath.init h)) sched).pa = 3 ∧
+      (SV.WPath.crun true (SV.WPath.enc a.1) (SV.WPath.enc a.2) (SV.WPath.enc b.1) (SV.WPath.enc b.2)
+      (SV.WPath.cinit (SV.WPath.run true SV.WPath.init h)) sched).pb = 3) :
+    let st := (SV.WPath.crun true (SV.WPath.enc a.1) (SV.WPath.enc a.2) (SV.WPath.enc b.1) (SV.WPath.enc b.2)
+      (SV.WPath.cinit (SV.WPath.run true SV.WPath.init h)) sched).st
+    SV.WPath.restart true st.docs st.mfile = st ∧
+    fracOfEntries dec (SV.WPath.restart true st.docs st.mfile).idx = fracOfEntries dec st.idx ∧
+    (GoodBulks (st.idx.map fun e => dec e.blk) →
+      Same (fracOfEntries dec (SV.WPath.restart true st.docs st.mfile).idx)
+        (run Active.empty (norep (st.idx.map fun e => dec e.blk)))) := by
+  intro st
+  have hfix : SV.WPath.restart true st.docs st.mfile = st := by
+    rcases concurrent_writers_serial h hwf a b sched hfin with e | e
+    · have est : st = _ := e
+      rw [est]
+      apply restart_fixpoint
+      intro ev hev
+      rcases List.mem_append.mp hev with hev | hev
+      · exact hwf ev hev
+      · simp only [List.mem_cons, List.not_mem_nil, or_false] at hev
+        rcases hev with rfl | rfl
+        · exact ha
+        · exact hb
+    · have est : st = _ := e
+      rw [est]
+      apply restart_fixpoint
+      intro ev hev
+      rcases List.mem_append.mp hev with hev | hev
+      · exact hwf ev hev
+      · simp only [List.mem_cons, List.not_mem_nil, or_false] at hev
+        rcases hev with rfl | rfl
+        · exact hb
+        · exact ha
+  refine ⟨hfix, by rw [hfix], ?_⟩
+  intro hg
+  rw [hfix]
+  exact (c17_idempotent _ hg).1
+
+/-- **c17_fetch_slot_once.**  Composition with C07's arrange model (`SV.FetchArrange.arrange`, the loop of
+`Fetcher.FetchDocs` for one requested id).  When a re-delivery landed in another fraction several asked fractions
+answer for the id; they hold the same bytes `d` (same id -> same content).  If *every* fraction that may hold the id
+is asked (no early stop: `c17_x_fetch_asks_every_fraction`), the result slot holds exactly `d` as soon as one fraction
+has it - found twice is still returned once - and stays empty only if none has it. -/
+theorem c17_fetch_slot_once {α} (answers : List (Option α)) (d : α)
+    (h : ∀ x, x ∈ answers → x = none ∨ x = some d) :
+    (some d ∈ answers → SV.FetchArrange.arrange answers = some d) ∧
+    (some d ∉ answers → SV.FetchArrange.arrange answers = none) :=
+  SV.FetchArrange.foldl_keep answers none d h
+
 end Composition
 
 /-! ## repeats that landed in another fraction: `removeRepetitionsAdvanced` / `MergeQPRs` -/
@@ -376,6 +434,20 @@ theorem c17_x_init_resets :
     collectorFields = ["nextDocOffset", "blockIndex", "MaxMID", "MinMID", "DocsCounter", "SizeCounter", "tokensBuf",
       "TokensValues", "FieldsLengths", "tokensMap", "tokenLIDsPlaces", "IDs", "tokensInDocs", "tokensIndex", "Positions",
       "lids", "solvers"] := ⟨rfl, rfl, rfl⟩
+
+/-- `ActiveWriter.Write` takes `a.mu` before its first file write and holds it until it returns: concurrent deliveries
+are the system `crun true` of `c17_concurrent_writers_replayed` (without the lock the docs and meta blocks of two
+bulks can land in opposite orders and `Replay` assigns each meta block the other bulk's documents) -/
+theorem c17_x_writer_serialised :
+    writerLock = ["a.mu.Lock", "a.mu.Unlock", "a.docs.Write"] ∧ writerDefers = ["a.mu.Unlock"] := by decide
+
+/-- the scheduling loop of `Fetcher.fetchDocsAsync` hands **every** grouped fraction to a worker: its only exits are
+the end of the fraction list and a cancelled context; nothing is skipped because "enough was found" (a document
+found in two fractions after a cross-fraction re-delivery must not end the search for the others) -/
+theorem c17_x_fetch_asks_every_fraction :
+    fetchLoopHeader = ["for i, frac := range fracs"] ∧
+    fetchLoopExits = ["case <-ctx.Done(): break loop"] ∧
+    fetchLoopCases = ["case <-ctx.Done()", "case f.sem <- struct{}{}"] := by decide
 
 /-- `MergeQPRs` sorts, then removes repetitions, then corrects the total, then cuts to the limit;
 `removeRepetitionsAdvanced` compares ids only -/
